@@ -5,6 +5,7 @@ from sx import spec as SP, obs as O, term as T, sstr as S
 from . import common as C
 
 ID = 'C11'
+AGEABLE = True        # a quarter of the configurations build their operands as objects with a past (props/common.py)
 ENCODED = ['Fxp.bin', 'Fxp.hex', 'Fxp.base_repr', 'Fxp.from_bin', 'utils.binary_repr', 'utils.hex_repr', 'utils.base_repr', 'utils.insert_frac_point',
            'utils.add_binary_prefix', 'utils.strbin2int', 'utils.strbin2float', 'utils.strhex2int', 'utils.strhex2float', 'utils.str2num',
            'utils.int_array', 'functions.from_bin', 'Fxp.set_val', 'Fxp._format_inupt_val']
